@@ -111,6 +111,11 @@ fn hostile<S: MlDsa>(seed: u64, scale: usize, out: &mut Out) {
             if let (Some(s), Some(dpk)) = (s, dpk.as_ref()) { t.call("verify", &format!("under the key derived from: {}", class), inp.clone(), || S::verify(dpk, b"msg", &s, b"ctx", mode)); }
         }
         t.call("sk._internal_sign", class, inp.clone(), || S::internal_sign(&key, b"mp", [0u8; 32]));
+        // keys with an extreme t0 spend many attempts in the second rejection test: sign many messages so that the
+        // rare paths of the rejection loop are visited with the self-checks on
+        if class.starts_with("t0 section") {
+            for i in 0..(600 * scale) { let m = (i as u32).to_le_bytes(); t.call("sk._internal_sign", &format!("{} (many messages)", class), inp.clone(), || S::internal_sign(&key, &m, [0u8; 32])); }
+        }
     }
     // arbitrary private-key strings
     for _ in 0..(20 * scale) { let b = p.bytes(S::SK_LEN); let b2 = b.clone(); t.call("sk.try_from_bytes", "random bytes", move || json!({"sk": hexs(&b2)}), || S::sk_from(&b).map(|k| S::sk_bytes(&k)).is_ok()); }
